@@ -25,6 +25,7 @@ type hist struct {
 	applied map[int]bool
 	side    []int // submitted, never applied
 	fat     bool  // pool-full history: big transactions
+	fatSize int   // bytes of arbitrary data per transaction while set (0: the ~0.9 MB default of fat histories)
 	long    bool  // C13: long branches around the 144 boundary
 }
 
@@ -60,7 +61,9 @@ func (h *hist) freshInput(l *mat.Ledger, avoid map[types.Hash256]bool) (types.Si
 
 func (h *hist) newTx(l *mat.Ledger, v2 bool, ins []types.SiacoinElement, nOuts int) *mat.PoolTx {
 	fat := 0
-	if h.fat {
+	if h.fatSize > 0 {
+		fat = h.fatSize + h.rng.Intn(1000)
+	} else if h.fat {
 		fat = 900_000 + h.rng.Intn(50_000)
 	}
 	fee := oneSC.Div64(uint64(1 + h.rng.Intn(4)))
@@ -775,6 +778,141 @@ func (h *hist) run(steps int) {
 	}
 }
 
+// heavyChain builds n transactions of ~size bytes each: the first spends a fresh input, every
+// further one the output of its predecessor (one input pays for the whole chain).
+func (h *hist) heavyChain(l *mat.Ledger, v2 bool, n, size int, avoid map[types.Hash256]bool) (set []Inst) {
+	e, ok := h.freshInput(l, avoid)
+	if !ok {
+		return nil
+	}
+	avoid[types.Hash256(e.ID)] = true
+	h.fatSize = size
+	defer func() { h.fatSize = 0 }()
+	in := e
+	for i := 0; i < n; i++ {
+		p := h.newTx(l, v2, []types.SiacoinElement{in}, 1)
+		set = append(set, Inst{T: p.Name})
+		if !spendable(p, 0) {
+			break
+		}
+		in = outElem(p, 0)
+	}
+	return
+}
+
+// heavyRun: sets that weigh about as much as the whole pool may hold (10 x MaxBlockWeight = 20 M)
+// against a SMALL pool.  A rejected heavy set (its last member double-spends an input of a pooled
+// transaction, so everything before it is appended and rolled back) must leave no weight behind:
+// the small accepted transactions stay; for contrast a heavy set that is ACCEPTED just below the
+// limit evicts nothing either, and only when the pooled transactions reach the limit may the pool
+// evict.  v1 and v2 (AddPoolTransactions / AddV2PoolTransactions), seeded variations.
+func (h *hist) heavyRun(k int) {
+	if err := h.x.Reset(); err != nil {
+		h.x.mismatch("harness:reset", "%v", err)
+		return
+	}
+	h.applied[1] = true
+	h.x.TwinEvery = 0
+	v2 := h.s.Regime == "v2" || k%2 == 0
+	kind := "v1"
+	if v2 {
+		kind = "v2"
+	}
+	const size = 1_900_000
+	l := h.tipLedger()
+	limit := int(l.CS.MaxBlockWeight() * 10)
+	avoid := map[types.Hash256]bool{}
+	small := func() *mat.PoolTx {
+		e, ok := h.freshInput(h.tipLedger(), avoid)
+		if !ok {
+			return nil
+		}
+		avoid[types.Hash256(e.ID)] = true
+		return h.newTx(h.tipLedger(), v2, []types.SiacoinElement{e}, 1)
+	}
+	// 1. a small pool: three accepted transactions (one submission or three)
+	var smalls []*mat.PoolTx
+	var first []Inst
+	for i := 0; i < 3; i++ {
+		if p := small(); p != nil {
+			smalls = append(smalls, p)
+			first = append(first, Inst{T: p.Name})
+		}
+	}
+	if len(smalls) < 3 {
+		return
+	}
+	if h.rng.Intn(2) == 0 {
+		h.x.AddSet(kind, h.x.Tip, first)
+	} else {
+		for _, in := range first {
+			h.x.AddSet(kind, h.x.Tip, []Inst{in})
+		}
+	}
+	if h.rng.Intn(2) == 0 {
+		h.grow() // a block underneath that leaves the pool alone or not: whatever the dice say
+		h.x.Obs()
+	}
+	conflictWith := func() *mat.PoolTx {
+		// a transaction double-spending an input of a transaction that is pooled right now
+		pool := append(append([]int{}, h.x.p1...), h.x.p2...)
+		for _, n := range pool {
+			p := h.s.Tx(n)
+			for _, in := range p.Ins {
+				if e, ok := h.tipLedger().SC[types.SiacoinOutputID(in)]; ok {
+					return h.newTx(h.tipLedger(), v2, []types.SiacoinElement{e.Copy()}, 1)
+				}
+			}
+		}
+		return nil
+	}
+	rejectedHeavy := func(n int) {
+		set := h.heavyChain(h.tipLedger(), v2, n, size, avoid)
+		c := conflictWith()
+		if len(set) == 0 || c == nil {
+			return
+		}
+		set = append(set, Inst{T: c.Name})
+		h.x.Res.Count("set_heavy-rejected", 1)
+		h.x.note("shape heavy-rejected: %d x %d bytes + a double spend against a pool of %d", n, size, len(h.x.p1)+len(h.x.p2))
+		if r := h.x.AddSet(kind, h.x.Tip, set); r != "err" {
+			h.x.note("(the heavy set with a pool conflict was answered %s)", r)
+		}
+	}
+	// 2. rejected heavy sets: the valid prefix alone weighs as much as the pool may hold
+	per := size + 400
+	rejectedHeavy(limit/per + 1 + h.rng.Intn(2))
+	h.x.LookupSweep()
+	if h.rng.Intn(2) == 0 {
+		rejectedHeavy(limit/per/2 + 1) // twice half the limit: the leak would add up
+		rejectedHeavy(limit/per/2 + 1)
+	}
+	// 3. contrast: a heavy set that is ACCEPTED and stays just below the limit evicts nothing
+	below := limit/per - 1 - h.rng.Intn(2)
+	if set := h.heavyChain(h.tipLedger(), v2, below, size, avoid); len(set) > 0 {
+		h.x.Res.Count("set_heavy-accepted-below-limit", 1)
+		h.x.note("shape heavy-accepted: %d x %d bytes, below the limit", below, size)
+		h.x.AddSet(kind, h.x.Tip, set)
+	}
+	// another rejected heavy set against the now nearly full pool: still nothing may be evicted
+	rejectedHeavy(2 + h.rng.Intn(3))
+	// 4. ... and two more accepted ones reach the limit: now (and only now) the pool may evict
+	if set := h.heavyChain(h.tipLedger(), v2, 2+h.rng.Intn(2), size, avoid); len(set) > 0 {
+		h.x.Res.Count("set_heavy-accepted-reaching-limit", 1)
+		h.x.note("shape heavy-accepted: reaching the limit")
+		h.x.AddSet(kind, h.x.Tip, set)
+	}
+	h.x.Obs()
+	if p := small(); p != nil {
+		h.x.AddSet(kind, h.x.Tip, []Inst{{T: p.Name}})
+	}
+	rejectedHeavy(3)
+	if !h.x.dead {
+		h.x.Obs()
+		h.x.LookupSweep()
+	}
+}
+
 // longPrefix grows two long branches so that (from, to) pairs around the 144 limit exist.
 func (h *hist) longPrefix(la, lb int) {
 	fork := h.x.Tip
@@ -801,6 +939,7 @@ func TestDriver(t *testing.T) {
 	steps := hx.EnvInt("VERIF_STEPS", 40)
 	nfat := hx.EnvInt("VERIF_FAT", 0)   // histories that fill the pool (20 M weight)
 	nlong := hx.EnvInt("VERIF_LONG", 0) // C13: histories with branches beyond the 144 limit
+	nheavy := hx.EnvInt("VERIF_HEAVY", 0) // C05: heavy (rejected / accepted) sets against a small pool
 	longA, longB := hx.EnvInt("VERIF_LONG_A", 80), hx.EnvInt("VERIF_LONG_B", 90)
 	twinEvery := hx.EnvInt("VERIF_TWIN_EVERY", 3)
 	tag := hx.Env("VERIF_TAG", "drv")
@@ -831,14 +970,27 @@ func TestDriver(t *testing.T) {
 				x.TwinEvery = twinEvery
 				x.Stub = stub
 				h := &hist{x: x, s: s, rng: rng, mode: mode, applied: map[int]bool{}}
-				h.fat = k < nfat
-				h.long = !h.fat && k < nfat+nlong
+				heavy := k >= nh-nheavy
+				if heavy && k%2 == 1 {
+					regime = "both" // the v1 variant needs a regime that still admits v1
+				}
+				if heavy {
+					s = NewScen(regime, seed, 2)
+					s.Name = fmt.Sprintf("%s-heavy-%d-%s", mode, k, regime)
+					x = NewExec(s, res, tw, len(abs)+1)
+					x.Stub = stub
+					h = &hist{x: x, s: s, rng: rng, mode: mode, applied: map[int]bool{}}
+				}
+				h.fat = !heavy && k < nfat
+				h.long = !heavy && !h.fat && k < nfat+nlong
 				n := steps
 				if h.fat {
 					n = steps * 2
 					x.TwinEvery = 0
 				}
-				if h.long {
+				if heavy {
+					h.heavyRun(k)
+				} else if h.long {
 					if err := x.Reset(); err != nil {
 						panic(err)
 					}
